@@ -276,9 +276,12 @@ def tagged_to_file(path, tag, dst, limit=None, every=1, offset=0):
 def load_known():
     p = os.path.join(VERIF, "known_findings.json")
     out = json.load(open(p))["findings"] if os.path.exists(p) else []
-    # rehearsals / proposals: additional files with the same layout, VERIF_EXTRA_KNOWN=path[:path...]
-    for extra in filter(None, os.environ.get("VERIF_EXTRA_KNOWN", "").split(":")):
-        out += json.load(open(extra))["findings"]
+    # rehearsals / proposals: additional files with the same layout (maintenance aid, never used by
+    # registered commands): VERIF_EXTRA_KNOWN=path[:path...] (VERIF_KNOWN_EXTRA accepted as an alias)
+    extras = os.environ.get("VERIF_EXTRA_KNOWN", "").split(":") + os.environ.get("VERIF_KNOWN_EXTRA", "").split(":")
+    for extra in filter(None, extras):
+        if os.path.exists(extra):
+            out += json.load(open(extra))["findings"]
     return out
 
 
